@@ -1,5 +1,5 @@
 (* C07 - subscribers are called exactly once per matching event with the right arguments.  Statements only. *)
-From RU Require Import Base Types Defs BitReader World Run WireSpec LwwProofs DispatchProofs NestedNotify Layout LayoutProofs.
+From RU Require Import Base Types Defs BitReader World Run WireSpec LwwProofs DispatchProofs NestedNotify Layout LayoutProofs TraceProofs CreateProofs.
 Open Scope N_scope.
 
 (* a method call nobody subscribed to has no effect and is NOT decoded: any payload bytes, decodable or not *)
@@ -87,3 +87,78 @@ Print Assumptions C07_path_covers_spec.
 Theorem C07_step_is_table_driven : forall St w c pl, step_class St w c pl = step_layout St w c pl.
 Proof. exact step_class_is_layout. Qed.
 Print Assumptions C07_step_is_table_driven.
+
+(* ---- whole histories ----
+   The trace after ANY packet history is the trace before it followed by what each packet contributed in the world it found, in stream
+   order: nothing recorded is ever removed, reordered or rewritten (lenient play; strict play: the same up to the failing packet). *)
+Theorem C07_trace_is_concatenation : forall St ps w, trace_of (play_lenient St w ps) = (trace_of w ++ contributions St w ps)%list.
+Proof. exact trace_is_concatenation. Qed.
+Print Assumptions C07_trace_is_concatenation.
+Theorem C07_trace_prefix_preserved_strict : forall St ps w, exists cs, trace_of (fst (play_strict St w ps)) = (trace_of w ++ cs)%list.
+Proof. exact trace_prefix_preserved_strict. Qed.
+(* ... and what a packet contributes: nothing for an unmapped type, nothing for a call nobody subscribed to (whatever its payload),
+   exactly its n invocations for a subscribed call, nothing for a subscribed call that does not decode, one notification per
+   callback with the NEW value for a property update *)
+Theorem C07_unmapped_contributes_nothing : forall St w p, table_get (pk_type p) (s_table St) = None -> emitted St w p = [].
+Proof. exact unmapped_contributes_nothing. Qed.
+Theorem C07_unsubscribed_contributes_nothing : forall St, s_game St <> Wowp -> forall w p id mid data e m mt,
+  table_get (pk_type p) (s_table St) = Some EntityMethod -> pk_payload p = enc_call id mid data ->
+  id < 2 ^ 32 -> mid < 2 ^ 32 -> N.of_nat (length data) < 2 ^ 32 ->
+  zassoc_get (Z.of_N id) (w_entities w) = Some e -> assoc_get (en_type e) (s_models St) = Some m ->
+  nthN (e_methods m) mid = Some mt -> mcount St (en_type e) mid = O ->
+  emitted St w p = [].
+Proof. exact unsubscribed_contributes_nothing. Qed.
+Theorem C07_subscribed_contributes : forall St, s_game St <> Wowp -> forall w p id mid data e m mt n vs rest,
+  table_get (pk_type p) (s_table St) = Some EntityMethod -> pk_payload p = enc_call id mid data ->
+  id < 2 ^ 32 -> mid < 2 ^ 32 -> N.of_nat (length data) < 2 ^ 32 ->
+  zassoc_get (Z.of_N id) (w_entities w) = Some e -> assoc_get (en_type e) (s_models St) = Some m ->
+  nthN (e_methods m) mid = Some mt -> mcount St (en_type e) mid = S n ->
+  decode_seq (Z.to_nat (m_hdr mt)) (map snd (m_args mt)) data = Ok (vs, rest) ->
+  emitted St w p = repeat_call (S n) (CMethod (key_of (en_type e) (m_name mt)) (en_id e)
+                                              (fst (split_args (map fst (m_args mt)) vs)) (snd (split_args (map fst (m_args mt)) vs))).
+Proof. exact subscribed_contributes. Qed.
+Print Assumptions C07_subscribed_contributes.
+Theorem C07_undecodable_contributes_nothing : forall St, s_game St <> Wowp -> forall w p id mid data e m mt n er,
+  table_get (pk_type p) (s_table St) = Some EntityMethod -> pk_payload p = enc_call id mid data ->
+  id < 2 ^ 32 -> mid < 2 ^ 32 -> N.of_nat (length data) < 2 ^ 32 ->
+  zassoc_get (Z.of_N id) (w_entities w) = Some e -> assoc_get (en_type e) (s_models St) = Some m ->
+  nthN (e_methods m) mid = Some mt -> mcount St (en_type e) mid = S n ->
+  decode_seq (Z.to_nat (m_hdr mt)) (map snd (m_args mt)) data = Err er ->
+  emitted St w p = [].
+Proof. exact undecodable_contributes_nothing. Qed.
+Theorem C07_update_contributes : forall St, s_game St <> Wowp -> forall w p id pid val e m pr v rest,
+  table_get (pk_type p) (s_table St) = Some EntityProperty -> pk_payload p = enc_update id pid val ->
+  id < 2 ^ 32 -> pid < 2 ^ 32 -> N.of_nat (length val) < 2 ^ 32 ->
+  zassoc_get (Z.of_N id) (w_entities w) = Some e -> assoc_get (en_type e) (s_models St) = Some m ->
+  nthN (e_client m) pid = Some pr -> decode 1 (p_type pr) val = Ok (v, rest) ->
+  emitted St w p = repeat_call (nsub (s_psubs St) (key_of (en_type e) (p_name pr))) (CProp (key_of (en_type e) (p_name pr)) (en_id e) v).
+Proof. exact update_contributes. Qed.
+Print Assumptions C07_update_contributes.
+
+(* non-vacuity: one entity type with a subscribed method `hit(UINT16, who=UINT8)` (two callbacks), an unsubscribed method `noise(STRING)`
+   and a subscribed property `hp`; the history creates entity 7, calls hit, calls noise with an undecodable payload, updates hp, sends a
+   packet of an unmapped type and calls hit again: the trace is exactly the two+two invocations and the one notification, in that order *)
+Local Open Scope string_scope.
+Definition ex7_hit := {| m_name := "hit"; m_args := [(None, TUInt 2); (Some "who", TUInt 1)]; m_hdr := 1%Z |}.
+Definition ex7_noise := {| m_name := "noise"; m_args := [(None, TString)]; m_hdr := 1%Z |}.
+Definition ex7_hp := {| p_name := "hp"; p_type := TUInt 2; p_flags := 0 |}.
+Definition ex7_model : emodel :=
+  {| e_methods := [ex7_hit; ex7_noise]; e_client := [ex7_hp]; e_internal := [ex7_hp]; e_cell := []; e_base := []; e_vol := [] |}.
+Definition ex7_St : setup :=
+  {| s_game := Wows; s_table := [(5%N, EntityCreate); (7%N, EntityProperty); (8%N, EntityMethod)]; s_names := ["Ship"];
+     s_models := [("Ship", ex7_model)]; s_msubs := [("Ship_hit", 2%nat)]; s_mcounts := [("Ship", [2%nat; 0%nat])];
+     s_psubs := [("Ship_hp", 1%nat)]; s_nsubs := [] |}.
+Definition ex7_t : bytes := [x00; x00; x00; x00].
+Definition ex7_ps : list packet :=
+  [{| pk_type := 5; pk_time := ex7_t; pk_payload := enc_create 7 1 (repeat x00 32) [] [] |};
+   {| pk_type := 8; pk_time := ex7_t; pk_payload := enc_call 7 0 [x2c; x01; x09] |};
+   {| pk_type := 8; pk_time := ex7_t; pk_payload := enc_call 7 1 [xff; xff] |};
+   {| pk_type := 7; pk_time := ex7_t; pk_payload := enc_update 7 0 [x10; x00] |};
+   {| pk_type := 99; pk_time := ex7_t; pk_payload := [x01; x02; x03] |};
+   {| pk_type := 8; pk_time := ex7_t; pk_payload := enc_call 7 0 [x01; x00; x02] |}].
+Example C07_example_history :
+  let hit a b := CMethod "Ship_hit" 7 [VInt a] [("who", VInt b)] in
+  trace_of (play_lenient ex7_St empty_world ex7_ps) = [hit 300%Z 9%Z; hit 300%Z 9%Z; CProp "Ship_hp" 7 (VInt 16); hit 1%Z 2%Z; hit 1%Z 2%Z] /\
+  contributions ex7_St empty_world ex7_ps = [hit 300%Z 9%Z; hit 300%Z 9%Z; CProp "Ship_hp" 7 (VInt 16); hit 1%Z 2%Z; hit 1%Z 2%Z] /\
+  snd (play_strict ex7_St empty_world ex7_ps) = None.
+Proof. vm_compute. repeat split; reflexivity. Qed.
